@@ -34,6 +34,8 @@ def family(rnd, overlap=None, flavour=None, layout=True):
     clash = rnd.random() < 0.6            # same glyph names in several fonts
     gdef_all = rnd.random() < 0.7
     gdef_family = rnd.random() < 0.6
+    suffix = clash and rnd.random() < 0.5  # some glyph names already look like the merger's own "X.N" renames
+    req_family = layout and rnd.random() < 0.35   # fonts may carry a script of their own with a REQUIRED feature
     fonts = []
     shared = []                            # (cp, uid, advance, name) shared code points
     nshared = 0 if overlap == "disjoint" else rnd.randint(1, 4)
@@ -45,10 +47,22 @@ def family(rnd, overlap=None, flavour=None, layout=True):
         prefix = "g" if clash else "f%dg" % i
         glyphs = []                        # dicts: name, cp, uid, adv, kind
         glyphs.append({"name": ".notdef", "cp": None, "uid": 5000 + i * 7 + rnd.randint(0, 3), "adv": 500 + 10 * i, "kind": "simple"})
+        used = {".notdef"}
         for j in range(n):
             uid += 1
-            glyphs.append({"name": "%s%d" % (prefix, j), "cp": base + 0x40 * i + j, "uid": uid,
+            name = "%s%d" % (prefix, j)
+            if suffix and j and rnd.random() < 0.45:
+                cand = "%s%d.%d" % (prefix, rnd.randrange(n), rnd.choice([1, 1, 2]))
+                if cand not in used:
+                    name = cand
+            if name in used:
+                name = "%s%dx" % (prefix, j)
+            used.add(name)
+            glyphs.append({"name": name, "cp": base + 0x40 * i + j, "uid": uid,
                            "adv": 200 + 23 * (uid % 29), "kind": "simple"})
+        if suffix and rnd.random() < 0.3:
+            uid += 1
+            glyphs.append({"name": ".notdef.1", "cp": base + 0x40 * i + 0x31, "uid": uid, "adv": 333, "kind": "simple"})
         if shared and (i < 2 or rnd.random() < 0.6):
             for cp, suid, adv, name in shared:
                 if overlap == "identical" or (overlap == "mixed" and suid % 2 == 0):
@@ -58,9 +72,11 @@ def family(rnd, overlap=None, flavour=None, layout=True):
                     g = {"name": name if clash else "f%d%s" % (i, name), "cp": cp, "uid": uid, "adv": adv + 50 * (i + 1), "kind": "simple"}
                 glyphs.append(g)
         mapped = [g["name"] for g in glyphs if g["cp"] is not None and not g["name"].startswith(("sh", "f%dsh" % i))]
-        spec = {"index": i, "ttf": ttf, "upem": upem, "glyphs": glyphs, "fea": None, "scripts": [], "tags": []}
+        spec = {"index": i, "ttf": ttf, "upem": upem, "glyphs": glyphs, "fea": None, "scripts": [], "tags": [],
+                "subr": None if ttf else rnd.choice([None, "global", "global", "local", "both"])}
         if layout and rnd.random() < 0.8:
-            _layout(rnd, spec, mapped, prefix, lambda: None, gdef_all if gdef_family else rnd.random() < 0.5)
+            own = ["grek", "cyrl", "armn", "geor"][i] if (req_family and rnd.random() < 0.7) else None
+            _layout(rnd, spec, mapped, prefix, ["DFLT", "latn"] if req_family else None, gdef_all if gdef_family else rnd.random() < 0.5, own)
             # unmapped glyphs created by the layout code get ids too
         for g in glyphs:
             if g["uid"] is None:
@@ -75,7 +91,7 @@ def family(rnd, overlap=None, flavour=None, layout=True):
     return {"upem": upem, "ttf": ttf, "overlap": overlap, "clash": clash, "fonts": fonts}
 
 
-def _layout(rnd, spec, mapped, prefix, _unused, want_gdef):
+def _layout(rnd, spec, mapped, prefix, pool, want_gdef, own=None):
     glyphs = spec["glyphs"]
     names = {g["name"] for g in glyphs}
 
@@ -85,9 +101,12 @@ def _layout(rnd, spec, mapped, prefix, _unused, want_gdef):
             glyphs.append({"name": name, "cp": None, "uid": None, "adv": None, "kind": "simple"})
         return name
 
-    scripts = rnd.sample(["DFLT", "latn", "grek", "cyrl"], rnd.randint(1, 3))
+    pool = pool or ["DFLT", "latn", "grek", "cyrl"]
+    scripts = rnd.sample(pool, rnd.randint(1, min(3, len(pool))))
     if rnd.random() < 0.6 and "DFLT" not in scripts:
         scripts.insert(0, "DFLT")
+    if own:
+        scripts.append(own)
     scripts.sort(key=lambda s: (s != "DFLT", s))
     lines = ["languagesystem %s dflt;" % s for s in scripts]
     langs = {}
@@ -136,6 +155,13 @@ def _layout(rnd, spec, mapped, prefix, _unused, want_gdef):
         ligs = [g["name"] for g in glyphs if "_" in g["name"]]
         others = [g["name"] for g in glyphs if g["name"] not in marks and g["name"] not in ligs and g["name"] != ".notdef"]
         lines.append("table GDEF { GlyphClassDef [%s], [%s], [%s], ; } GDEF;" % (" ".join(others), " ".join(ligs), " ".join(marks)))
+    if own and len(mapped) > 3:
+        # a required feature of the font's own script: FeatureList index 0 ('abvs' sorts first) or a later one
+        rtag = rnd.choice(["abvs", "abvs", "rlig", "ss05"])
+        rl = new("%s_%s" % (c, d))
+        lines.append("feature %s { script %s; language dflt required; sub %s %s by %s; } %s;" % (rtag, own, c, d, rl, rtag))
+        tags.append(rtag)
+        spec["required"] = (own, rtag)
     if not tags:
         return
     spec["fea"] = "\n".join(lines) + "\n"
@@ -200,4 +226,47 @@ def build(spec):
         fb.addOpenTypeFeatures(spec["fea"])
     b = io.BytesIO()
     fb.save(b)
+    data = b.getvalue()
+    if not ttf and spec.get("subr"):
+        data = subroutinise(data, spec["subr"])
+    return data
+
+
+def subroutinise(data, mode):
+    """Move the drawing part of every charstring into a subroutine: `global` (GlobalSubrs only, no local Subrs),
+    `local` (Private Subrs only) or `both` (alternating).  fontTools has no subroutiniser; done by hand: the
+    operators after the first moveto form complete groups on an empty stack, so they can be called as a unit."""
+    from fontTools.cffLib import SubrsIndex
+    from fontTools.misc.psCharStrings import T2CharString
+    from fontTools.ttLib import TTFont
+
+    f = TTFont(io.BytesIO(data))
+    cff = f["CFF "].cff
+    td = cff.topDictIndex[0]
+    cs = td.CharStrings
+    gsubrs = cff.GlobalSubrs
+    lsubrs = None
+    if mode in ("local", "both"):
+        lsubrs = td.Private.Subrs = SubrsIndex()
+    for k, name in enumerate(f.getGlyphOrder()):
+        c = cs[name]
+        c.decompile()
+        prog = list(c.program)
+        pos = [i for i, t in enumerate(prog) if t in ("rmoveto", "hmoveto", "vmoveto")]
+        if not pos or prog[-1] != "endchar":
+            continue
+        i = pos[0]
+        body = prog[i + 1:-1]
+        if not body:
+            continue
+        sub = T2CharString(program=body + ["return"])
+        if mode == "global" or (mode == "both" and k % 2):
+            gsubrs.append(sub)
+            call = [len(gsubrs) - 1 - 107, "callgsubr"]
+        else:
+            lsubrs.append(sub)
+            call = [len(lsubrs) - 1 - 107, "callsubr"]
+        c.program = prog[:i + 1] + call + ["endchar"]
+    b = io.BytesIO()
+    f.save(b)
     return b.getvalue()
